@@ -1,6 +1,7 @@
 import FmtModel.Wire
 import FmtModel.Members
 import FmtModel.Drv.Fmt
+import FmtModel.ConstHist
 open Py Wire Engine
 
 namespace Drv
@@ -33,6 +34,36 @@ def showG (d : Group.Decl) (g : Group.GObj) : String :=
   String.intercalate ";" (d.map fun m => esc m.name ++ "=" ++
     (match alookup m.name g with | some o => esc (m.cls.string o) | none => "?"))
 
+/-- `k=v;k=v` with escaped fields -/
+def readMapSemi (s : Str) : List (Str × Str) :=
+  if s.isEmpty then [] else (splitOn s [';']).map fun item =>
+    (unesc (item.takeWhile (· != '=')), unesc ((item.dropWhile (· != '=')).drop 1))
+
+/-- one operation of a constant-class history: comma-separated fields, first field the kind -/
+def readHistOp (s : Str) : Option ConstHist.Op :=
+  match splitOn s [','] with
+  | [['N'], m] => some (.newMap (readMapSemi m))
+  | [['C'], src, name, base] => some (.create (natOfStr src) (unesc name) (readOpt base))
+  | [['V'], c] => some (.handValues (natOfStr c))
+  | [['X'], c] => some (.handRegex (natOfStr c))
+  | [['S'], h, k, v] => some (.set (natOfStr h) (unesc k) (unesc v))
+  | [['D'], h, k] => some (.del (natOfStr h) (unesc k))
+  | [['P'], c, text, fmt, strict] => some (.parse (natOfStr c) (unesc text) (unesc fmt) (strict == ['1']))
+  | [['R'], c, text, fmt, fmt2] => some (.render (natOfStr c) (unesc text) (unesc fmt) (unesc fmt2))
+  | _ => none
+
+def showObs (o : Option (R Str)) : String :=
+  match o with
+  | none => "none"
+  | some r => showR esc r
+
+/-- `make_obj(value).to_const().parse(text, fmt).format(fmt2)` -/
+def toConstRun {V} (C : Cls V) (v : V) (text fmt fmt2 : Str) : String :=
+  showR esc (do
+    let K ← Const.ofInstance C v
+    let o ← Const.parse K text (some fmt) false
+    Engine.format K o fmt2)
+
 def grpDispatch (op : String) (a : List Str) : Option String :=
   match op, a with
   | "const.parse", [mp, name, base, value, fmt, strict] =>
@@ -44,6 +75,17 @@ def grpDispatch (op : String) (a : List Str) : Option String :=
   | "const.gen_format", [mp, name, base, fmt] =>
     let C := Const.mk (readMap mp) name (readOpt base)
     some (showR esc (do let t ← regexTable C.rows; genFormat t fmt [] []))
+  | "toconst", [kind, v, text, fmt, fmt2] =>
+    if kind == "serial".toList then some (toConstRun Serial.cls (natOfStr v) text fmt fmt2)
+    else if kind == "datetime".toList then some (toConstRun Datetime.cls (readDT v) text fmt fmt2)
+    else if kind == "naming".toList then some (toConstRun Naming.cls (readWords v) text fmt fmt2)
+    else if kind == "storage".toList then some (toConstRun Storage.cls (readDec v) text fmt fmt2)
+    else if kind == "version".toList then some (toConstRun Version.cls (readObj v) text fmt fmt2)
+    else none
+  | "const.history", [h] =>
+    let ops := (if h.isEmpty then [] else splitOn h ['|']).map readHistOp
+    if ops.any Option.isNone then some "bad-history"
+    else some (String.intercalate "|" ((ConstHist.runReal {} (ops.filterMap id)).2.map showObs))
   | "convert_fmt_str", [f] => some (esc (Const.convertFmtStr f))
   | "group.gen_format", [decl, fmt] =>
     some (showR (fun (p : Str × List (Str × Str)) => esc p.1 ++ "|" ++
